@@ -65,6 +65,16 @@ CHECKS = {
             "conversion functions with their argument variants decodes to the original panel and equals the direct "
             "conversion; nestedness predicates and check_X coercions on every reached state",
             "4/C15", TRUST + "from_long_to_nested(column_names=None) documents generated names; accepted."),
+    "C10": ("model_checking", "E2", E2 + "; exact recursive object digest as state key; fresh-fit differential oracle",
+            "per forecaster program a breadth-first search over {update, overlapping update, update_predict_single, "
+            "update_predict} histories to depth 3-4 on the real object: cutoff, remembered data, repeated predict, "
+            "equivalence with a fresh fit on the union, parameter digest across update_params=False, closed forms "
+            "from the new cutoff, update_predict vs the loop of single calls",
+            "4/C10", TRUST + "Refit-equivalence only demanded of programs whose every part refits on update (listed in evidence assumptions)."),
+    "C14": ("exploration", "E1", E1,
+            "24 closed-form transformer kinds over tagged panels/series (equal and unequal length, Series/array cells) "
+            "x each transformer's option grid, against plain-loop references written from the docstrings",
+            "4/C14", TRUST + "19 undocumented behaviours accepted as the code does them (listed in evidence assumptions)."),
 }
 
 PENDING_REASON = "check not built yet in this round; planned in DESIGN.md section 4 (engine listed there)"
